@@ -248,6 +248,20 @@ class Gen:
                 w = r.pick([x for x in lv if x != v] or lv)
                 self.do("@AddFV %d %d %d" % (v, v, w))
 
+    def pillow(self):
+        """a self-adjacent cell: BOTH halffaces of one face (a 'pillow'; it passes the topology check) - every renumbering of that
+        face meets the same cell from both sides; built last so that its face is the one fast deletion relocates.  Plus a free
+        face in front of it as a victim."""
+        r = self.r
+        base = self.st().nv
+        self.add_vertices(3 + 3)
+        if r.chance(2, 3): self.do("@AddFV %d %d %d" % (base + 3, base + 4, base + 5))      # a free face to delete later
+        f = self.do("@AddFV %d %d %d" % (base, base + 1, base + 2)).result()
+        if not isinstance(f, int): return
+        hfs = [2 * f, 2 * f + 1]
+        if r.chance(1, 2): hfs.reverse()
+        self.do("@AddC %d %d %d" % (r.below(2), hfs[0], hfs[1]))
+
     def doublet(self):
         """two cells sharing TWO faces (legal in polyhedral meshes), with a third cell on the face in between in
         the first cell's halfface list - neighbour lists then contain non-adjacent duplicates before de-duplication"""
@@ -501,8 +515,9 @@ class Gen:
         r = self.r
         n = 1 + r.below(3)
         for _ in range(n):
-            c = r.below(9)
-            if c == 8: self.doublet()
+            c = r.below(10)
+            if c == 9: self.pillow()
+            elif c == 8: self.doublet()
             elif c == 0: self.fan(2 + r.below(4), closed=True)
             elif c == 1: self.fan(1 + r.below(4), closed=False)
             elif c == 2: self.strip(1 + r.below(4))
@@ -627,6 +642,7 @@ class Gen:
                 elif c == 15: self.swap_some()
                 elif c == 16: self.toggle()
                 elif c == 17: self.do("EnFast %d" % r.below(2))
+                elif c == 18: self.pillow(); self.fill_props()
                 else: self.build(); self.fill_props()
         elif p == "toggles":
             # incidence kinds switched off and on again while deletions are pending / after renumbering (C12, C01)
